@@ -37,7 +37,7 @@ func init() {
 			}
 			out = append(out, scenarioSet{mode: "dfs", maxExec: lmax, sc: &Scenario{
 				Name: "c02-loop-" + rep, Reporter: rep, Gauge: "nan", Loop: true, MaxTicks: lticks,
-				Points: append([]string{"rl_select", "rl_tick"}, guPoints...),
+				Points:  append([]string{"rl_select", "rl_tick"}, guPoints...),
 				Threads: []ThreadSpec{{Name: "u1", Ops: lupd}}}})
 			// two gauges in two scopes, one updater each, loop + explicit sequential passes by the same thread: random over all points
 			n := 300
@@ -59,6 +59,17 @@ func init() {
 				Threads: []ThreadSpec{
 					{Name: "u1", Ops: []Op{{Op: "get", H: "root", M: "x-y", K: "gauge"}, {Op: "upd", H: "root", M: "x-y", V: 1}, {Op: "pass"}}},
 					{Name: "u2", Ops: []Op{{Op: "get", H: "root", M: "x-y", K: "gauge"}}},
+				}}})
+			// a gauge handle kept from a sub-scope that was closed and obtained again: updates through the stale handle
+			// are not delivered under any live gauge (in particular not under a gauge created afterwards)
+			kv := map[string]string{"k": "v"}
+			out = append(out, scenarioSet{mode: "dfs", maxExec: 2500, sc: &Scenario{
+				Name: "c02-stale-handle-" + rep, Reporter: rep, Gauge: "plain", Points: []string{"op_sub", "op_get", "op_upd", "op_close", "op_pass"},
+				Threads: []ThreadSpec{
+					{Name: "u1", Ops: []Op{{Op: "sub", H: "h", Tags: kv}, {Op: "get", H: "h", M: "g", K: "gauge"}, {Op: "upd", H: "h", M: "g", V: 1}, {Op: "close", H: "h"},
+						{Op: "sub", H: "h", Tags: kv}, {Op: "upd", H: "h", M: "g2", V: 2}, {Op: "upd", H: "h", M: "g3", V: 3},
+						{Op: "upd", H: "h", M: "g", V: 4}, {Op: "upd", H: "h", M: "g2", V: 2}}},
+					{Name: "p1", Ops: []Op{{Op: "pass"}, {Op: "pass"}}},
 				}}})
 		}
 		return out
